@@ -16,6 +16,7 @@ LEVEL_NOTE = ('Trusted: front-end, interpreter, real algebra (no rounding). The 
 EXPLANATION = ('R11.1 energy: d/dt(-G m1 m2/2a) + sum C spin dspin/dt + sum host*(n dUdM - spin dUdO) == 0 with n^2 a^3 = G(m1+m2); angular momentum at zero obliquity. '
                'R11.2 sibling agreement (combined vs separate functions; dual with body 2 off == single). R11.3 call-site binding. R11.4 masked division (e=0 gives 0, not NaN). '
                'R11.6 pointwise kernels. R11.7 closed loop: with the potential derivatives and heating produced by the real mode summation, dE_orb/dt + sum C spin dspin/dt + heating == 0 and (obliquity off) dL_orb/dt + sum C dspin/dt == 0, single and dual dissipation. R11.8 no in-place update of arguments. R11.9 the public entry points end to end: the returned heating(s), da/dt, de/dt and spin-rate derivative(s) balance energy (and angular momentum with obliquity tides off), scalar and array inputs.')
+EXPLANATION += ' R11.10 the array twin: every interpreted call repeated with array arguments (mutable cells) returns the scalar values element for element and leaves the arguments intact.'
 
 
 def eps_mask(node, pt=None):
